@@ -104,10 +104,13 @@ CONSTANTS
   ResumePermutes = TRUE
   AllowCrash = FALSE
   UpdateAfterRebuild = TRUE
+  Dark = 1
+  TablesOnResume = "pickled"
 INVARIANT BathShape
 INVARIANT CentreFollowsSweep
 INVARIANT OneFillPerStep
 INVARIANT DriveWritten
+INVARIANT TablesMatchSites
 INVARIANT ReturnedComplete
 INVARIANT ReturnedInRegisterOrder
 PROPERTY StepsInOrder
